@@ -62,3 +62,79 @@ Qed.
 
 Definition n_slotdocs : nat :=
   (Slots0.n_docs + Slots1.n_docs + Slots2.n_docs + Slots3.n_docs + Slots4.n_docs + Slots5.n_docs + Slots6.n_docs + Slots7.n_docs)%nat.
+
+(* ---------------------------------------------------------------- printer-side compositions *)
+From MF Require Import Model.PPrint Model.Roundtrip.
+
+Definition root_only (sd : slotdoc) : bool := str_eqb (sd_ctx sd) (Str "root/only").
+
+Definition all_rt_failing_ids : list (str * str * str * str) :=
+  Slots0.rt_failing_ids ++ Slots1.rt_failing_ids ++ Slots2.rt_failing_ids ++ Slots3.rt_failing_ids ++
+  Slots4.rt_failing_ids ++ Slots5.rt_failing_ids ++ Slots6.rt_failing_ids ++ Slots7.rt_failing_ids.
+Definition all_idem_failing_ids : list (str * str * str * str) :=
+  Slots0.idem_failing_ids ++ Slots1.idem_failing_ids ++ Slots2.idem_failing_ids ++ Slots3.idem_failing_ids ++
+  Slots4.idem_failing_ids ++ Slots5.idem_failing_ids ++ Slots6.idem_failing_ids ++ Slots7.idem_failing_ids.
+Definition all_opts_failing_ids : list (str * str * str * str) :=
+  Slots0.opts_failing_ids ++ Slots1.opts_failing_ids ++ Slots2.opts_failing_ids ++ Slots3.opts_failing_ids ++
+  Slots4.opts_failing_ids ++ Slots5.opts_failing_ids ++ Slots6.opts_failing_ids ++ Slots7.opts_failing_ids.
+
+Lemma filter_check_ok (chk : slotdoc -> bool) (docs : list slotdoc) ids all sd :
+  map slot_id (filter (fun sd => negb (chk sd)) (filter root_only docs)) = ids -> incl ids all ->
+  In sd docs -> root_only sd = true -> ~ In (slot_id sd) all -> chk sd = true.
+Proof.
+  intros Hs Hi Hin Hr Hnot. destruct (chk sd) eqn:E; [reflexivity|]. exfalso. apply Hnot, Hi.
+  rewrite <- Hs. apply in_map. apply filter_In. split; [|rewrite E; reflexivity].
+  apply filter_In. split; assumption.
+Qed.
+
+Ltac shard_cases Hin :=
+  repeat (apply in_app_or in Hin; destruct Hin as [Hin|Hin]).
+
+Ltac incl_solve :=
+  let x := fresh "x" in let Hx := fresh "Hx" in
+  intros x Hx; repeat (first [ exact Hx | apply in_or_app; first [ left; exact Hx | right ] ]).
+
+Theorem roundtrip_ok_except :
+  forall sd, In sd all_slotdocs -> root_only sd = true -> ~ In (slot_id sd) all_rt_failing_ids ->
+             roundtrip_ok default_opts (sd_text sd) = true.
+Proof.
+  intros sd Hin Hr Hnot. unfold all_slotdocs in Hin. unfold all_rt_failing_ids in Hnot. shard_cases Hin.
+  - eapply (filter_check_ok Slots0.rt_check _ _ _ sd Slots0.rt_failing_ids_spec); [|exact Hin|exact Hr|exact Hnot]; incl_solve.
+  - eapply (filter_check_ok Slots1.rt_check _ _ _ sd Slots1.rt_failing_ids_spec); [|exact Hin|exact Hr|exact Hnot]; incl_solve.
+  - eapply (filter_check_ok Slots2.rt_check _ _ _ sd Slots2.rt_failing_ids_spec); [|exact Hin|exact Hr|exact Hnot]; incl_solve.
+  - eapply (filter_check_ok Slots3.rt_check _ _ _ sd Slots3.rt_failing_ids_spec); [|exact Hin|exact Hr|exact Hnot]; incl_solve.
+  - eapply (filter_check_ok Slots4.rt_check _ _ _ sd Slots4.rt_failing_ids_spec); [|exact Hin|exact Hr|exact Hnot]; incl_solve.
+  - eapply (filter_check_ok Slots5.rt_check _ _ _ sd Slots5.rt_failing_ids_spec); [|exact Hin|exact Hr|exact Hnot]; incl_solve.
+  - eapply (filter_check_ok Slots6.rt_check _ _ _ sd Slots6.rt_failing_ids_spec); [|exact Hin|exact Hr|exact Hnot]; incl_solve.
+  - eapply (filter_check_ok Slots7.rt_check _ _ _ sd Slots7.rt_failing_ids_spec); [|exact Hin|exact Hr|exact Hnot]; incl_solve.
+Qed.
+
+Theorem idempotent_ok_except :
+  forall sd, In sd all_slotdocs -> root_only sd = true -> ~ In (slot_id sd) all_idem_failing_ids ->
+             idempotent_ok default_opts (sd_text sd) = true.
+Proof.
+  intros sd Hin Hr Hnot. unfold all_slotdocs in Hin. unfold all_idem_failing_ids in Hnot. shard_cases Hin.
+  - eapply (filter_check_ok Slots0.idem_check _ _ _ sd Slots0.idem_failing_ids_spec); [|exact Hin|exact Hr|exact Hnot]; incl_solve.
+  - eapply (filter_check_ok Slots1.idem_check _ _ _ sd Slots1.idem_failing_ids_spec); [|exact Hin|exact Hr|exact Hnot]; incl_solve.
+  - eapply (filter_check_ok Slots2.idem_check _ _ _ sd Slots2.idem_failing_ids_spec); [|exact Hin|exact Hr|exact Hnot]; incl_solve.
+  - eapply (filter_check_ok Slots3.idem_check _ _ _ sd Slots3.idem_failing_ids_spec); [|exact Hin|exact Hr|exact Hnot]; incl_solve.
+  - eapply (filter_check_ok Slots4.idem_check _ _ _ sd Slots4.idem_failing_ids_spec); [|exact Hin|exact Hr|exact Hnot]; incl_solve.
+  - eapply (filter_check_ok Slots5.idem_check _ _ _ sd Slots5.idem_failing_ids_spec); [|exact Hin|exact Hr|exact Hnot]; incl_solve.
+  - eapply (filter_check_ok Slots6.idem_check _ _ _ sd Slots6.idem_failing_ids_spec); [|exact Hin|exact Hr|exact Hnot]; incl_solve.
+  - eapply (filter_check_ok Slots7.idem_check _ _ _ sd Slots7.idem_failing_ids_spec); [|exact Hin|exact Hr|exact Hnot]; incl_solve.
+Qed.
+
+Theorem options_ok_except :
+  forall sd, In sd all_slotdocs -> root_only sd = true -> ~ In (slot_id sd) all_opts_failing_ids ->
+             forallb (fun o => options_ok o (sd_text sd)) option_sets = true.
+Proof.
+  intros sd Hin Hr Hnot. unfold all_slotdocs in Hin. unfold all_opts_failing_ids in Hnot. shard_cases Hin.
+  - eapply (filter_check_ok Slots0.opts_check _ _ _ sd Slots0.opts_failing_ids_spec); [|exact Hin|exact Hr|exact Hnot]; incl_solve.
+  - eapply (filter_check_ok Slots1.opts_check _ _ _ sd Slots1.opts_failing_ids_spec); [|exact Hin|exact Hr|exact Hnot]; incl_solve.
+  - eapply (filter_check_ok Slots2.opts_check _ _ _ sd Slots2.opts_failing_ids_spec); [|exact Hin|exact Hr|exact Hnot]; incl_solve.
+  - eapply (filter_check_ok Slots3.opts_check _ _ _ sd Slots3.opts_failing_ids_spec); [|exact Hin|exact Hr|exact Hnot]; incl_solve.
+  - eapply (filter_check_ok Slots4.opts_check _ _ _ sd Slots4.opts_failing_ids_spec); [|exact Hin|exact Hr|exact Hnot]; incl_solve.
+  - eapply (filter_check_ok Slots5.opts_check _ _ _ sd Slots5.opts_failing_ids_spec); [|exact Hin|exact Hr|exact Hnot]; incl_solve.
+  - eapply (filter_check_ok Slots6.opts_check _ _ _ sd Slots6.opts_failing_ids_spec); [|exact Hin|exact Hr|exact Hnot]; incl_solve.
+  - eapply (filter_check_ok Slots7.opts_check _ _ _ sd Slots7.opts_failing_ids_spec); [|exact Hin|exact Hr|exact Hnot]; incl_solve.
+Qed.
